@@ -71,10 +71,16 @@ OscRgb == { V(OSC \o tg[1] \o <<SEMI, 114, 103, 98, 58>> \o HexK(r, k) \o <<47>>
               <<Ev("color", tg[2], 0, tg[3] \o <<r, g, b>>, <<>>)>>)
             : tg \in ColTargets, k \in 1..4, r \in {0, 17, 255}, g \in {0, 34, 255}, b \in {0, 255} }    \* multiples of 17 so that the 1-digit form is exact
 HexStr(bs) == FlattenSeq([i \in 1..Len(bs) |-> Hex2(bs[i])])
+\* xterm answers XTGETTCAP in upper-case hex
+HexU(d) == IF d < 10 THEN 48 + d ELSE 55 + d
+HexStrU(bs) == FlattenSeq([i \in 1..Len(bs) |-> <<HexU(bs[i] \div 16), HexU(bs[i] % 16)>>])
 Names == { <<84, 78>>, <<67, 111>>, <<82, 71, 66>> }                 \* TN Co RGB
-Vals == { <<120, 116, 101, 114, 109>>, <<50, 53, 54>>, <<56>> }      \* xterm 256 8
+\* xterm 256 8 and a value whose bytes carry every hex letter in either nibble ("o_/?JKLMNjklmnz")
+Vals == { <<120, 116, 101, 114, 109>>, <<50, 53, 54>>, <<56>>, <<111, 95, 47, 63, 74, 75, 76, 77, 78, 106, 107, 108, 109, 110, 122>> }
 Termcap == { V(DCS \o <<49, 43, 114>> \o HexStr(n) \o <<61>> \o HexStr(v) \o ST, <<Ev("termcap", "ok", 0, <<>>, n \o <<61>> \o v)>>) : n \in Names, v \in Vals }
+           \cup { V(DCS \o <<49, 43, 114>> \o HexStrU(n) \o <<61>> \o HexStrU(v) \o ST, <<Ev("termcap", "ok", 0, <<>>, n \o <<61>> \o v)>>) : n \in Names, v \in Vals }
            \cup { V(DCS \o <<48, 43, 114>> \o HexStr(n) \o ST, <<Ev("termcap", "fail", 0, <<>>, n)>>) : n \in Names }
+           \cup { V(DCS \o <<48, 43, 114>> \o HexStrU(n) \o ST, <<Ev("termcap", "fail", 0, <<>>, n)>>) : n \in Names }
 KittyImg == { V(APC \o <<71, 105, 61>> \o Num(i) \o <<SEMI, 79, 75>> \o ST, <<Ev("kittyimg", "ok", 0, <<i, -1>>, <<>>)>>) : i \in {1, 31, 65535} }
             \cup { V(APC \o <<71, 105, 61>> \o Num(i) \o <<44, 112, 61>> \o Num(p) \o <<SEMI, 79, 75>> \o ST, <<Ev("kittyimg", "ok", 0, <<i, p>>, <<>>)>>) : i \in {1, 31}, p \in {1, 65536, 65537} }
             \cup { V(APC \o <<71, 105, 61>> \o Num(7) \o <<44, 112, 61>> \o Num(3) \o <<SEMI>> \o msg \o ST, <<Ev("kittyimg", "error", 0, <<7, 3>>, msg)>>)
